@@ -23,8 +23,10 @@ import os
 from . import hirq as H
 from .engine import VERIF
 from . import respser as R
+from . import sym as S
+from .pathcond import Analysis
 from . import oblig_rules as OR
-from .oblig_mono import node_at
+from .oblig_mono import node_at, hir_fn_for
 
 LEVEL = "other"
 
@@ -35,119 +37,94 @@ def check(ctx, F, cfg, P="C17", clauses="all"):
         ctx.oblige("%s|frame|%s" % (P, suffix), False, msg, cfg=cfg)
     if m is None:
         return 0
-    A = m.A
     other = F.adt("ctap2::Error")
     other_val = None
     if other:
         other_val = next((v.get("discr") for v in other["variants"] if v["name"] == "Other"), None)
     ctx.oblige("%s|frame|other-code" % P, other_val == 0x7F, "ctap2::Error::Other is %r, not 0x7F" % (other_val,), cfg=cfg, nontrivial=False)
     kinds = set()
-    for p in m.paths:
-        vs, vpat = R.variant_of(m, p)
-        kind, slice_id = R.classify(m, p)
-        label = "%s|%s" % ("+".join(vs or ["?"]), kind)
+    where = m.fn["sp"]
+    for v in m.paths:
+        p = v.p
+        label = "%s|%s" % (v.variant, v.kind)
         key = "%s|frame|path|%s" % (P, label)
-        where = m.fn["sp"]
-        if not ctx.oblige(key + "|classified", kind in ("ok", "ok-a0", "err") and vs is not None and not p.loops and p.done is None,
-                          "a path of Response::serialize is not one of {Ok & [0xA0], Ok, Err} (kind=%s, done=%s, loops=%d): %s" % (kind, p.done, p.loops, [A.cond_str(c) for c in p.conds]), cfg=cfg, where=where):
+        if not ctx.oblige(key + "|classified", v.kind in ("ok", "ok-a0", "err", "ok-empty") and v.variant != "?" and not p.loops,
+                          "a path of Response::serialize is not one of {Ok & [0xA0], Ok, Err, no parameters} (kind=%s, loops=%d): %s" % (v.kind, p.loops, [S.show_atom(a) for a in p.atoms][:8]), cfg=cfg, where=where):
             continue
-        kinds.add(kind)
-        eff = list(p.effects)
-        buf_ops = [e for e in eff if e.get("k") == "mcall" and H.local_id(e["recv"]) == m.buf_id]
-        mutating = [e for e in buf_ops if e.get("callee") != R.CAPACITY]
+        kinds.add(v.kind)
+        ops = v.buf_ops
         # 1. grow first
-        good = len(mutating) >= 1 and mutating[0].get("callee") == R.RESIZE
-        if good:
-            a = H.strip_block(mutating[0]["args"][0])
-            good = a.get("k") == "mcall" and a.get("callee") == R.CAPACITY and H.local_id(a["recv"]) == m.buf_id
+        good = len(ops) >= 1 and ops[0].callee == R.RESIZE and len(ops[0].args) == 2 and ops[0].args[1] == ("call", R.CAPACITY, (R.BUF,), ops[0].args[1][3] if len(ops[0].args[1]) > 3 else None)
         ctx.oblige(key + "|grow-first", good, "the buffer is not first grown to its full capacity", cfg=cfg, where=where)
-        # 2. split second, nothing else on the buffer than grow, split, final resize
-        shape_ok = [e.get("callee") for e in mutating] == [R.RESIZE, R.SPLIT, R.RESIZE] and mutating[1] is m.split_node
-        ctx.oblige(key + "|buffer-ops", shape_ok, "buffer operations on this path are %s, expected [grow, split_first_mut, final resize]" % [e.get("callee", "?").split("::")[-1] for e in mutating], cfg=cfg, where=where)
+        # 2. split second, nothing else on the buffer than grow, split, final shrink
+        shape_ok = [e.callee for e in ops[:2]] == [R.RESIZE, R.SPLIT] and len(ops) == 3 and ops[2].callee in (R.RESIZE, R.TRUNCATE)
+        ctx.oblige(key + "|buffer-ops", shape_ok, "buffer operations on this path are %s, expected [grow, split_first_mut, final resize/truncate]" % [S.short_fn(e.callee) for e in ops], cfg=cfg, where=where)
         if not shape_ok:
             continue
         # 3. body written only by cbor_serialize into the tail
-        sers = [e for e in eff if e.get("callee") in R.CBOR_SER]
-        foreign = [e for e in eff if e not in buf_ops and e not in sers and e.get("k") not in ("assign",)]
-        ctx.oblige(key + "|only-encoder-writes", not foreign and all(H.local_id(H.call_args(s)[1]) == m.data_id for s in sers) and len(sers) <= 1,
-                   "something other than cbor_serialize(payload, <tail after the status byte>) touches the buffer: %s" % [A.desc(e)[:80] for e in foreign], cfg=cfg, where=where)
+        foreign = [e for e in v.effects if e not in ops and e not in v.encoders and e not in v.status_writes]
+        ctx.oblige(key + "|only-encoder-writes", not foreign and len(v.encoders) <= 1 and all(len(e.args) == 2 and e.args[1] == v.data_place for e in v.encoders),
+                   "something other than cbor_serialize(payload, <tail after the status byte>) touches the buffer: %s" % ["%s(%s)" % (S.short_fn(e.callee), ", ".join(S.show(a)[:40] for a in e.args)) for e in foreign][:4], cfg=cfg, where=where)
         # 4. status assigned exactly once, right constant
-        assigns = [e for e in eff if e.get("k") in ("assign", "assignop")]
-        st = [e for e in assigns if H.local_id(H.strip(e["l"])) == m.status_id]
-        good = len(st) == 1 and len(assigns) == 1 and st[0]["k"] == "assign" and H.strip_block(st[0]["l"]).get("k") == "unary"
-        val = None
+        good = len(v.status_writes) == 1 and len(v.assigns) == 1
+        val = v.status_writes[0].args[1] if v.status_writes else None
         if good:
-            r = H.strip_block(st[0]["r"])
-            if kind == "err":
-                val = "Other" if (r.get("k") == "cast" and H.ctor(r["e"]) == "ctap2::Error::Other" and r.get("ty") == "u8") else A.desc(r)
-                good = val == "Other"
-            else:
-                val = H.lit(r)
-                good = val == 0 and not isinstance(val, bool)
-        ctx.oblige(key + "|status", good, "status byte on the %s path is %r (expected %s, assigned exactly once)" % (kind, val, "Error::Other as u8" if kind == "err" else "0"), cfg=cfg, where=where)
+            good = val == ("lit", 0x7F if v.kind == "err" else 0)
+        ctx.oblige(key + "|status", good, "status byte on the %s path is %s (expected %s, assigned exactly once)" % (v.kind, S.show(val) if val else "never assigned", "Error::Other as u8" if v.kind == "err" else "0"), cfg=cfg, where=where)
         # 5. final length
-        last = mutating[-1]
-        ctx.oblige(key + "|resize-last", eff[-1] is last or all(e.get("callee") == R.CAPACITY or e.get("k") == "assign" for e in eff[eff.index(last) + 1:]) and eff[-1] is last,
-                   "the final resize is not the last operation on the buffer", cfg=cfg, where=where)
-        n = H.strip_block(last["args"][0])
-        n = A.subst(n)
-        if kind in ("err", "ok-a0"):
-            good = H.lit(n) == 1
-            msg = "on the %s path the message is resized to %s, expected exactly 1 byte" % (kind, A.desc(n))
+        last = ops[2]
+        ctx.oblige(key + "|resize-last", v.effects[-1] is last, "the final resize is not the last operation on the buffer", cfg=cfg, where=where)
+        n = last.args[1] if len(last.args) == 2 else None
+        if v.kind in ("err", "ok-a0", "ok-empty"):
+            good = n == ("lit", 1)
+            msg = "on the %s path the message is resized to %s, expected exactly 1 byte" % (v.kind, S.show(n))
         else:
-            good = False
-            if n.get("k") == "binary" and n["op"] == "+":
-                l, r = A.subst(n["l"]), A.subst(n["r"])
-                for x, y in ((l, r), (r, l)):
-                    if H.lit(y) == 1 and x.get("k") == "mcall" and x.get("callee") == "core::slice::<impl [T]>::len" and H.local_id(x["recv"]) == slice_id:
-                        good = True
-            msg = "on the Ok path the message is resized to %s, expected <written slice>.len() + 1" % A.desc(n)
-        ctx.oblige(key + "|final-length", good, msg, cfg=cfg, where=H.line(last))
+            body = m.sym.proj(v.enc.term, S.OK, 0)
+            good = bool(n) and n[0] == "bin" and n[1] == "+" and sorted([n[2], n[3]], key=repr) == sorted([("lit", 1), ("call", R.LEN, (body,), (n[2] if n[2][0] == "call" else n[3])[3] if (n[2][0] == "call" or n[3][0] == "call") else None)], key=repr)
+            msg = "on the Ok path the message is resized to %s, expected <written slice>.len() + 1" % S.show(n)
+        ctx.oblige(key + "|final-length", good, msg, cfg=cfg, where=H.line(last.node))
         # 6. results of the resizes are discarded, never unwrapped
-        for i, rz in enumerate((mutating[0], last)):
-            ctx.oblige(key + "|resize-discarded|%d" % i, R.discarded(m, rz), "the Result of resize_default is not simply discarded (a panic or an early exit on failure)", cfg=cfg, where=H.line(rz), nontrivial=False)
-        ctx.sample({"cfg": cfg, "variants": vs, "path": kind, "conds": [A.cond_str(c) for c in p.conds], "effects": [A.desc(e)[:90] for e in eff]}, limit=24)
+        for i, rz in enumerate((ops[0], last)):
+            if rz.callee == R.TRUNCATE:
+                continue
+            ctx.oblige(key + "|resize-discarded|%d" % i, R.discarded(m, rz.node), "the Result of resize_default is not simply discarded (a panic or an early exit on failure)", cfg=cfg, where=H.line(rz.node), nontrivial=False)
+        ctx.sample({"cfg": cfg, "variant": v.variant, "path": v.kind, "when": [S.show_atom(a) for a in p.atoms][-3:], "effects": ["%s(%s)" % (S.short_fn(e.callee), ", ".join(S.show(a)[:50] for a in e.args)) for e in v.effects]}, limit=24)
     ctx.oblige("%s|frame|all-kinds" % P, kinds >= {"ok", "ok-a0", "err"}, "Response::serialize no longer has the three exits Ok, Ok&[0xA0], Err (found %s)" % sorted(kinds), cfg=cfg)
-    # the unwrap on split_first_mut: discharged by N >= 1 + grow-first (recorded as an assumption)
-    if m.split_unwrap is not None:
+    # panicking paths: only the unwrap of split_first_mut (discharged by N >= 1: the buffer was grown to capacity first)
+    for v in m.panic_paths:
+        sp_ok = len(v.split) == 1 and v.p.known.get(v.split[0].term) == S.NONE and v.buf_ops[:1] and v.buf_ops[0].callee == R.RESIZE
+        ctx.oblige("%s|frame|panic|%s" % (P, str(v.p.done[1])[:60]), bool(sp_ok), "Response::serialize can panic at %s (%s)" % (v.p.done[1], v.p.done[2]), cfg=cfg, where=where)
+    if m.panic_paths:
         ctx.note("split_first_mut().unwrap() is discharged by the property's precondition N >= 1: on every path the buffer was grown to capacity first")
+    ctx.extra.setdefault("helpers_expanded", {})[cfg] = sorted(m.sym.inlined)
     return len(m.paths)
 
 
 def payload(ctx, F, cfg, spec, P="C17"):
-    """body wiring per response variant: a data-bearing variant's arm is cbor_serialize(<its own bound payload>, <tail>),
-    a parameter-less one is Ok(<empty slice>) -- in every configuration in which the variant exists"""
+    """body wiring per response variant: on every path of a data-bearing variant the body is cbor_serialize(<its own payload>, <tail>),
+    a parameter-less one never calls the encoder -- in every configuration in which the variant exists"""
     from .wire import erase_lt
     m, problems = R.build(F)
-    if m is not None and m.self_match is not None:
-        seen = set()
-        for a in m.self_match["arms"]:
-            pats = a["pat"]["pats"] if a["pat"].get("k") == "or" else [a["pat"]]
-            body = H.strip_block(a["body"])
-            for p in pats:
-                v = (H.pat_ctor(p) or "?").split("::")[-1]
-                seen.add(v)
-                want = spec["response_variants"].get(v, "?")
-                key = "%s|frame|payload|%s" % (P, v)
-                if want == "?":
-                    ctx.note("Response::%s is not in the specification table: not judged" % v)
-                    continue
-                if want is None:
-                    # Ok(<empty slice>)
-                    good = body.get("k") == "call" and body.get("ctor") == R.OK
-                    if good:
-                        x = H.strip(body["args"][0])
-                        if x.get("k") == "mcall" and x.get("callee") in ("core::array::<impl [T; N]>::as_slice", "core::slice::<impl [T]>::as_ref"):
-                            x = H.strip(x["recv"])
-                        good = x.get("k") == "array" and len(x["elems"]) == 0
-                    ctx.oblige(key, good, "parameter-less response %s no longer has an empty body" % v, cfg=cfg, where=a["sp"])
-                else:
-                    binds = H.pat_bindings(p)
-                    good = body.get("callee") in R.CBOR_SER and len(binds) == 1 and H.local_id(H.call_args(body)[0]) == binds[0][1] and H.local_id(H.call_args(body)[1]) == m.data_id
-                    ty = (body.get("targs") or [""])[0]
-                    ctx.oblige(key, good and erase_lt(ty) == want, "response %s is encoded from %s, expected its own payload of type %s" % (v, ty, want), cfg=cfg, where=a["sp"])
-        for v in spec["response_variants"]:
-            ctx.oblige("%s|frame|variant|%s" % (P, v), v in seen, "Response::%s has no arm in Response::serialize" % v, cfg=cfg, nontrivial=False)
+    if m is None:
+        return
+    seen = {}
+    for v in m.paths:
+        seen.setdefault(v.variant, []).append(v)
+    for name, vs in sorted(seen.items()):
+        want = spec["response_variants"].get(name, "?")
+        key = "%s|frame|payload|%s" % (P, name)
+        if want == "?":
+            ctx.note("Response::%s is not in the specification table: not judged" % name)
+            continue
+        if want is None:
+            ctx.oblige(key, all(not v.encoders and v.kind == "ok-empty" for v in vs), "parameter-less response %s no longer has an empty body" % name, cfg=cfg, where=m.fn["sp"])
+        else:
+            pay = ("proj", R.ME, "ctap2::Response::" + name, 0)
+            good = all(v.enc is not None and v.enc.args[0] == pay for v in vs)
+            tys = sorted({erase_lt((v.enc.node.get("targs") or [""])[0]) for v in vs if v.enc is not None})
+            ctx.oblige(key, good and tys == [want], "response %s is encoded from %s (%s), expected its own payload of type %s" % (name, sorted({S.show(v.enc.args[0]) if v.enc is not None else "nothing" for v in vs}), tys, want), cfg=cfg, where=m.fn["sp"])
+    for name in spec["response_variants"]:
+        ctx.oblige("%s|frame|variant|%s" % (P, name), name in seen, "Response::%s has no path in Response::serialize" % name, cfg=cfg, nontrivial=False)
 
 
 def run(ctx):
@@ -167,18 +144,32 @@ def run(ctx):
         m, _ = R.build(F)
 
         def local_rules(inst, ev, kind, m=m, F=F):
-            if inst["def"] != R.FN or m is None:
+            fn = hir_fn_for(F, inst)
+            if fn is None or m is None:
                 return None, None
-            nodes = node_at(m.fn, ev["sp"])
-            if kind == "call:core::option::Option::<T>::unwrap" and m.split_unwrap is not None and any(x is m.split_unwrap for x in nodes):
-                # every path grows the buffer to capacity before the split (clause grow-first above)
-                return "B-pre", "split_first_mut() after resize_default(capacity()) is Some for N >= 1 (the property's precondition)"
+            nodes = node_at(fn, ev["sp"])
+            if kind == "call:core::option::Option::<T>::unwrap":
+                for x in nodes:
+                    if x.get("k") == "mcall" and x.get("callee") == "core::option::Option::<T>::unwrap" and H.strip_block(x["recv"]).get("callee") == R.SPLIT and all(v.buf_ops[:1] and v.buf_ops[0].callee == R.RESIZE for v in m.views):
+                        # every path grows the buffer to capacity before the split (clause grow-first above)
+                        return "B-pre", "split_first_mut() after resize_default(capacity()) is Some for N >= 1 (the property's precondition)"
+            if kind == "assert:overflow:Add" and m.sym.arith.get(ev["sp"]):
+                # every pair of operand terms seen on the paths: a slice length or a small literal on each side
+                def small(t):
+                    return t[0] == "lit" and isinstance(t[1], int) and 0 <= t[1] <= 0xFFFF
+                def length(t):
+                    return t[0] == "call" and t[1] in ("core::slice::<impl [T]>::len",)
+                seen = m.sym.arith[ev["sp"]]
+                if all(op == "+" and ((small(l) and (small(r) or length(r))) or (small(r) and length(l))) for op, l, r in seen):
+                    return "B-len1", "on every path the sum is <slice length or literal> + <literal <= 65535> (%d operand pairs): a slice length is at most isize::MAX" % len(seen)
             if kind == "assert:overflow:Add":
+                A = Analysis(fn)
                 for x in nodes:
                     if x.get("k") == "binary" and x["op"] == "+":
-                        l, r = m.A.subst(x["l"]), m.A.subst(x["r"])
+                        l, r = A.subst(x["l"]), A.subst(x["r"])
                         for a, b in ((l, r), (r, l)):
-                            if H.lit(b) == 1 and a.get("k") == "mcall" and a.get("callee") == "core::slice::<impl [T]>::len":
+                            one = H.lit(b) == 1 or (b.get("k") == "path" and F.const_value(b["res"].get("path") or "") == 1)
+                            if one and a.get("k") == "mcall" and a.get("callee") == "core::slice::<impl [T]>::len":
                                 return "B-len1", "slice.len() + 1: a slice length is at most isize::MAX"
             return None, None
 
